@@ -27,6 +27,9 @@ type slowCase struct {
 	// Stalled: no slow handler; instead the peer has stopped reading (receive window closed, nobody
 	// mid-write) when Close() is called, and the data write timeout (5 s) is far above "promptly"
 	Stalled bool `json:"stalled_peer,omitempty"`
+	// SlowErrCb: the async-send error callback (documented to run on the per-generation sender
+	// goroutine) takes 6 s, longer than the close timeout: the sender of generation 1 outlives it
+	SlowErrCb bool `json:"slow_err_callback,omitempty"`
 }
 
 const (
@@ -182,13 +185,100 @@ func runStalled(t *testing.T, sc slowCase, onLeak func(string)) (failKey, failDe
 	return
 }
 
+// runSlowErrCb: the peer stops reading; four fire-and-forget sends are accepted (the first blocks
+// in its write, three wait in the queue); the write times out, the generation is dropped, and the
+// async-send error callback — slow, but it returns — keeps generation 1's sender goroutine busy
+// beyond the bounded teardown. Generation 2 is established. When the callback returns, the queued
+// messages of generation 1 are discarded: none of them appears on generation 2's socket.
+func runSlowErrCb(t *testing.T, sc slowCase, onLeak func(string)) (failKey, failDesc, harness string) {
+	const (
+		closeTO = time.Second
+		cbFor   = 6 * time.Second
+		wt      = time.Second
+	)
+	e2.Run(t, func(w *e2.World) {
+		w.OnLeak = onLeak
+		bad := func(key, f string, a ...any) {
+			if failKey == "" {
+				failKey, failDesc = key, fmt.Sprintf("%+v: ", sc)+fmt.Sprintf(f, a...)
+			}
+		}
+		cbEntered := time.Duration(-1)
+		o := e2.Opts{Active: sc.Active, Conn: []hsms.ConnOption{hsms.WithSessionID(0x0101), hsms.WithT3(slowT3), hsms.WithT5(time.Second), hsms.WithT6(5 * time.Second), hsms.WithT7(time.Hour), hsms.WithT8(time.Hour),
+			hsms.WithCloseTimeout(closeTO), hsms.WithWriteTimeout(wt), hsms.WithReconnectBackoff(100*time.Millisecond, 1.0),
+			hsms.WithAsyncSendErrorHandler(func(hsms.Message, error) {
+				if cbEntered < 0 {
+					cbEntered = w.Now()
+					time.Sleep(cbFor) // slow, but it returns
+				}
+			})}}
+		w.NewConn(o)
+		if err := w.Establish(o); err != nil {
+			harness = "establish: " + err.Error()
+			return
+		}
+		w.Read()
+		gen1 := w.Peer
+		gen1.Stall()
+		big := make([]byte, 1<<16)
+		for i := 0; i < 4; i++ {
+			it := secs2.A(fmt.Sprintf("g1-async-%d", i))
+			if i == 0 {
+				it = secs2.NewBinaryItem(big) // blocks in its write whatever the window does
+			}
+			if err := w.C.SendDataMessageAsync(context.Background(), 1, 3, false, it); err != nil {
+				harness = fmt.Sprintf("async send %d was not accepted: %v", i, err)
+				return
+			}
+		}
+		w.Advance(wt + 100*time.Millisecond)
+		if cbEntered < 0 {
+			harness = "the async-send error callback was not invoked after the write timeout"
+			return
+		}
+		// generation 2
+		ok := false
+		for k := 0; k < 40 && !ok; k++ {
+			w.Advance(100 * time.Millisecond)
+			ok = w.AttachPeer(sc.Active)
+		}
+		if !ok {
+			harness = "no new link within 4 s of the write timeout"
+			return
+		}
+		if err := w.SelectOnPeer(sc.Active); err != nil {
+			harness = "select on the new link: " + err.Error()
+			return
+		}
+		if w.Now() >= cbEntered+cbFor {
+			harness = "generation 2 came up only after the callback had returned"
+			return
+		}
+		for w.Now() < cbEntered+cbFor+2*time.Second {
+			w.Advance(100 * time.Millisecond)
+			for _, f := range w.Read() {
+				if f.SType == peer.SData {
+					bad("stale-frame:slow-error-callback", "generation 2's socket carried %v %q: a fire-and-forget message accepted for sending in generation 1 (its sender goroutine was kept busy %v by the async-send error callback, close timeout %v) was flushed onto the next generation", f.Key(), string(f.Body), cbFor, closeTO)
+					return
+				}
+			}
+		}
+		if st := w.C.State(); st != hsms.SelectedState {
+			bad("new-generation-dropped:slow-error-callback", "generation 2 is %v after the callback returned; nothing happened on its link", st)
+		}
+	})
+	return
+}
+
 func oneSlow(c *vfw.Ctx, t *testing.T, sc slowCase) {
 	onLeak := func(stacks string) {
 		c.Violate("goroutine-leak", fmt.Sprintf("%+v: library goroutines alive after Close:\n%s", sc, stacks[:min(len(stacks), 1500)]), sc)
 		c.Abort("goroutine leak wedged the bubble")
 	}
 	k, d, h := "", "", ""
-	if sc.Stalled {
+	if sc.SlowErrCb {
+		k, d, h = runSlowErrCb(t, sc, onLeak)
+	} else if sc.Stalled {
 		k, d, h = runStalled(t, sc, onLeak)
 	} else {
 		k, d, h = runSlow(t, sc, onLeak)
@@ -201,7 +291,7 @@ func oneSlow(c *vfw.Ctx, t *testing.T, sc slowCase) {
 	case k != "":
 		c.Violate(k, d, sc)
 	default:
-		c.Outcome(fmt.Sprintf("slow-handler:%s:stalled=%v:sends=%d:released-at-generation-end", sc.EndBy, sc.Stalled, sc.Sends))
+		c.Outcome(fmt.Sprintf("slow-handler:%s:stalled=%v:errcb=%v:sends=%d:released-at-generation-end", sc.EndBy, sc.Stalled, sc.SlowErrCb, sc.Sends))
 	}
 }
 
@@ -220,6 +310,9 @@ func partSlow(c *vfw.Ctx, t *testing.T) {
 				continue
 			}
 			oneSlow(c, t, slowCase{Slow: true, Active: active, EndBy: "close", Sends: n, Stalled: true})
+		}
+		if c.Next() {
+			oneSlow(c, t, slowCase{Slow: true, Active: active, EndBy: "writeTimeout", SlowErrCb: true})
 		}
 	}
 }
